@@ -75,9 +75,14 @@ def run_frame(ctx, rules=("frame.affine",), want_cipher=False):
         # a path that leaves after the header was taken from the stream but before the body was: the rest of this frame stays in
         # the stream and the next header is read from the middle of it (and, encrypted, the cipher is stepped on body bytes)
         for p in paths:
-            if p.returned in ("call", "other") and p.consumed > 0 and p.body_len is None and not want_cipher:
-                ctx.violate("frame.affine", f"{key0}|early-return", f"{fn['path']}: a path returns{' through ' + p.final_call if p.final_call else ''} after {p.consumed} header bytes were taken from the stream "
+            if p.returned in ("call", "other", "err") and p.consumed > 0 and p.body_len is None and not want_cipher:
+                ctx.violate("frame.affine", f"{key0}|early-return", f"{fn['path']}: a path returns{' through ' + p.final_call if p.final_call else ' an error' if p.returned == 'err' else ''} after {p.consumed} header bytes were taken from the stream "
                             f"but before the body was read: the body of that frame stays in the stream, so the next read starts in the middle of it (stream no longer aligned on a frame boundary)", fn["file"], fn["line"])
+            if not want_cipher:
+                for kind_, callee_ in p.notes:
+                    if kind_ == "fallible-before-body":
+                        ctx.violate("frame.affine", f"{key0}|early-error|{callee_.split('::')[-1]}", f"{fn['path']}: `{callee_.split('::')[-1]}(..)?` can fail after {p.consumed} header bytes were taken from the stream "
+                                    "but before the body was read: on that error the body of the frame stays in the stream and the next read starts in the middle of it", fn["file"], fn["line"])
         paths = [p for p in paths if (p.body_len is not None or p.final_call is not None) and not (p.returned is not None and p.body_len is None)]
         if not paths:
             ctx.violate("frame.affine", f"{key0}|nopath", f"{fn['path']}: no path reads a body", fn["file"], fn["line"])
